@@ -39,7 +39,7 @@ func init() {
 	reg("mem/json-value", ruleMem, 600, 900, 2, facet.F[Input]{Gen: genMem(DJSONValue, 16)}, false)
 	reg("mem/json-type", ruleMem, 400, 600, 2, facet.F[Input]{Gen: genMem(DJSONType, 64)}, false)
 	reg("mem/json-implied", ruleMem, 1200, 2400, 2, facet.F[Input]{Gen: genMem(DJSONImplied, 4)}, false)
-	reg("mem/msgpack-value", ruleMem, 1200, 2400, 2, facet.F[Input]{Gen: genMem(DMsgpackValue, 4)}, false)
+	reg("mem/msgpack-value", ruleMem, 1200, 2400, 2, facet.F[Input]{Gen: genMem(DMsgpackValue, 8)}, false)
 	reg("mem/msgpack-implied", ruleMem, 1200, 2400, 2, facet.F[Input]{Gen: genMem(DMsgpackImplied, 4)}, false)
 	_ = mf{}
 }
